@@ -20,8 +20,62 @@ pub struct ClusterSim {
 
 pub const WALL_START: u64 = 1_700_000_000_000_000_000;
 
+static SENT: AtomicU64 = AtomicU64::new(0);
+static DONE: AtomicU64 = AtomicU64::new(0);
+static READER_PLUS: AtomicU64 = AtomicU64::new(0);
+static READER_MINUS: AtomicU64 = AtomicU64::new(0);
+static DEQUEUED: std::sync::Mutex<Vec<u64>> = std::sync::Mutex::new(Vec::new());
+
+#[derive(Clone, Copy, Debug, PartialEq, Eq)]
+pub struct Activity {
+    pub sent: u64,
+    pub done: u64,
+    pub reader_plus: u64,
+    pub reader_minus: u64,
+}
+
+impl Activity {
+    pub fn busy(&self) -> bool {
+        self.sent != self.done || self.reader_plus != self.reader_minus
+    }
+}
+
+pub fn activity() -> Activity {
+    Activity { sent: SENT.load(Ordering::SeqCst), done: DONE.load(Ordering::SeqCst), reader_plus: READER_PLUS.load(Ordering::SeqCst), reader_minus: READER_MINUS.load(Ordering::SeqCst) }
+}
+
+pub fn reset_activity() {
+    SENT.store(0, Ordering::SeqCst);
+    DONE.store(0, Ordering::SeqCst);
+    READER_PLUS.store(0, Ordering::SeqCst);
+    READER_MINUS.store(0, Ordering::SeqCst);
+    DEQUEUED.lock().unwrap().clear();
+}
+
 impl Sim for ClusterSim {
     fn point(&self, site: &'static str, a: u64, b: u64) -> Action {
+        match site {
+            "client:sent" => {
+                SENT.fetch_add(1, Ordering::SeqCst);
+            }
+            "writer:dequeued" => {
+                DEQUEUED.lock().unwrap().push(a);
+            }
+            "writer:idle" => {
+                let mut d = DEQUEUED.lock().unwrap();
+                if let Some(pos) = d.iter().position(|x| *x == a) {
+                    d.remove(pos);
+                    DONE.fetch_add(1, Ordering::SeqCst);
+                }
+            }
+            "reader:job+" => {
+                READER_PLUS.fetch_add(1, Ordering::SeqCst);
+            }
+            "reader:job-" => {
+                READER_MINUS.fetch_add(1, Ordering::SeqCst);
+            }
+            _ => {}
+        }
         if site.starts_with("confirm:") || site.starts_with("cluster:") || site.starts_with("sub:") {
             let cb = HOOK.with(|h| h.borrow_mut().take());
             if let Some(mut cb) = cb {
